@@ -71,9 +71,10 @@ REAL_STUB = {
     "real": ["jinja2.bccache (Bucket, FileSystemBytecodeCache, MemcachedBytecodeCache)", "BaseLoader.load integration", "compiler, marshal, pickle"],
     "stub": ["file system (SimFS behind jinja2.bccache.os/tempfile/open)", "memcached client (SimMemcache)", "process scheduler (baton passing at syscall events)"],
 }
-BUDGET = {"quick": 28, "thorough": 600}
+BUDGET = {"quick": 40, "thorough": 600}
 CACHE_DIR = F.ROOT + "cache"
 OPTIONS = ["autoescape", "trim_blocks", "lstrip_blocks", "enable_async", "sandboxed", "optimized", "keep_trailing_newline"]
+OVERLAY_OPTIONS = ["autoescape", "trim_blocks", "lstrip_blocks", "optimized", "keep_trailing_newline"]
 _setup_done = False
 _REF: dict = {}
 
@@ -159,7 +160,7 @@ DATA = {"s": "<&>", "f": _f, "o": Obj(), "l": [1, 2, 3]}
 # only in these may share cache entries and must still each render with their own (no tolerance, no classifier)
 RT_FILTERS = [lambda v: f"f0({v})", lambda v: f"f1[{v}]", lambda v: f"f2<{v}>"]
 RT_TESTS = [lambda v: True, lambda v: False, lambda v: len(str(v)) == 3]
-TAIL = "{{ missing }}|{{ s|rtf }}|{% if s is rtt %}T{% else %}F{% endif %}|{{ rtg }}|{{ xg|default('nx') }}|{{ xg is defined }}\n"
+TAIL = "{{ missing }}|{{ s|rtf }}|{% if s is rtt %}T{% else %}F{% endif %}|{{ rtg }}|{{ xg|default('nx') }}|{{ xg is defined }}|{% if s == 'never-equal' %}{{ s|optf }}{% endif %}\n"
 
 
 def source(name: str, v: int, variant: int) -> str:
@@ -191,6 +192,8 @@ def make_env(cfg: dict, loader, bcc):
     env.filters["rtf"] = RT_FILTERS[rt]
     env.tests["rtt"] = RT_TESTS[rt]
     env.globals["rtg"] = f"g{rt}"
+    if cfg.get("of"):
+        env.filters["optf"] = lambda v: f"optf({v})"  # a filter only some environments register (used in a branch never taken)
     if cfg.get("xg"):
         env.globals["xg"] = "XG"  # a global that only some environments HAVE (which names exist is run-time configuration)
     return env
@@ -262,24 +265,34 @@ def run(tape: Tape) -> Outcome:
 
     out = Outcome()
     backend = "memcached" if tape.draw(4) == 3 else "fs"
-    cfgmode = (0, 0, 1, 2)[tape.draw(4)]  # same configuration / one compile-relevant option differs / only run-time options differ
+    # same configuration / one compile-relevant option differs / only run-time options differ / differently configured
+    # OVERLAYS that were each given their own cache (file pattern) - the documented way to keep configurations apart
+    cfgmode = (0, 0, 1, 2, 3)[tape.draw(5)]
+    if cfgmode == 3 and backend != "fs":
+        cfgmode = 0
     mixed = cfgmode == 1
-    mode_name = ("same-config", "mixed-config", "mixed-runtime-config")[cfgmode]
+    mode_name = ("same-config", "mixed-config", "mixed-runtime-config", "separate-caches")[cfgmode]
     nproc = 2 + tape.draw(2)
     base = {o: bool(tape.draw(2)) for o in OPTIONS}
     base["enable_async"] = base["enable_async"] and tape.draw(2) == 1
     base["undefined"] = tape.weighted([5, 1, 1, 1])
     base["rt"] = tape.draw(3)
     base["xg"] = bool(tape.draw(2))
+    base["of"] = bool(tape.draw(2))
     cfgs = []
     for p in range(nproc):
         c = dict(base)
         if mixed and p > 0:
             o = OPTIONS[tape.draw(len(OPTIONS))]
             c[o] = not c[o]
+        if cfgmode == 3 and p > 0:
+            o = OVERLAY_OPTIONS[tape.draw(len(OVERLAY_OPTIONS))]
+            c[o] = not c[o]
         if cfgmode == 2 and p > 0:
-            which = tape.draw(3)
-            if which == 1:
+            which = tape.draw(4)
+            if which == 3:
+                c["of"] = not c["of"]
+            elif which == 1:
                 c["undefined"] = (c["undefined"] + 1 + tape.draw(3)) % 4
             elif which == 2:
                 c["xg"] = not c["xg"]
@@ -295,7 +308,7 @@ def run(tape: Tape) -> Outcome:
     nrounds = 3 + tape.draw(8)
     rounds = []
     for _ in range(nrounds):
-        k = tape.weighted([8, 3, 3, 1, 1, 1, 2])
+        k = tape.weighted([8, 3, 3, 1, 1, 1, 2, 1])
         if k == 0:
             rounds.append(("load", tape.draw(nproc), tape.pick(names)))
         elif k == 1:
@@ -308,6 +321,9 @@ def run(tape: Tape) -> Outcome:
             rounds.append(("clear", tape.draw(nproc)))
         elif k == 4:
             rounds.append(("restart", tape.draw(nproc)))
+        elif k == 7:
+            # the source goes BACK to an earlier text (an edit reverted, a file restored from backup)
+            rounds.append(("revert", tape.pick(names)))
         elif k == 6:
             # two threads of one process (one Environment, one bytecode-cache object), optionally with a source edit
             # landing while they load
@@ -326,6 +342,7 @@ def run(tape: Tape) -> Outcome:
     older_entries: dict[str, bytes] = {}
 
     subtle_state = {n: 0 for n in names}
+    past_sources: dict[str, list[str]] = {n: [] for n in names}
 
     def bump(n, subtle=0):
         """New source for n.  subtle=0: the version number changes (same length).  subtle>0: an edit a careless
@@ -346,6 +363,8 @@ def run(tape: Tape) -> Outcome:
             base_src = base_src.replace("\n", "\u2028", 1)
         elif k == 5:
             base_src = base_src.replace("\n", "\r\n", 1)
+        if n in store:
+            past_sources[n].append(store[n])
         store[n] = base_src
 
     for n in names:
@@ -381,7 +400,17 @@ def run(tape: Tape) -> Outcome:
             loader = jinja2.ChoiceLoader([jinja2.DictLoader(store), jinja2.DictLoader(shadow)])
         else:
             loader = jinja2.DictLoader(store)
-        p.env = make_env(p.cfg, loader, bcc)
+        if cfgmode == 3 and p.idx > 0 and backend == "fs":
+            # this process configures a base environment like process 0 and derives its own variant with overlay(),
+            # giving the variant a cache of its own; the base is used first, so its entries exist
+            base_env = make_env(cfgs[0], loader, bcc)
+            own = FileSystemBytecodeCache(CACHE_DIR, pattern=f"__p{p.idx}_%s.cache")
+            delta = {o_: p.cfg[o_] for o_ in OVERLAY_OPTIONS if p.cfg[o_] != cfgs[0][o_]}
+            p.base = base_env
+            p.env = base_env.overlay(bytecode_cache=own, **delta)
+        else:
+            p.base = None
+            p.env = make_env(p.cfg, loader, bcc)
 
     for p in procs:
         start(p)
@@ -433,6 +462,15 @@ def run(tape: Tape) -> Outcome:
         fired0 = len(fs.fired) + len(mc.fired)
         src = store[n]
         env = p.env
+        if getattr(p, "base", None) is not None:
+            try:
+                p.base.get_template(n)  # the base configuration is in use in this process as well
+            except F.SimCrash:
+                raise
+            except T.SimAbort:
+                raise
+            except BaseException:  # noqa: BLE001 - judged through the variant's load below
+                pass
         r = _render_key(lambda: env.get_template(n).render(**DATA))
         return r, src, fired0
 
@@ -462,7 +500,7 @@ def run(tape: Tape) -> Outcome:
         # KF-C27-1: served an entry written under another configuration
         writers = [w for (_path, w, _ino) in fs.reads.get(p.pid, [])] if backend == "fs" else [w for (_k, w) in mc.reads.get(p.pid, [])]
         for w in writers:
-            if w is not None and compile_part(w) != compile_part(p.cfg):
+            if cfgmode != 3 and w is not None and compile_part(w) != compile_part(p.cfg):
                 alt = cross_config(p.cfg, dict(w), src, n)
                 if alt == got:
                     out.known = "KF-C27-1"
@@ -700,6 +738,16 @@ def run(tape: Tape) -> Outcome:
                     _after_crash(fs, procs, power_loss, out)
                 if not ok:
                     break
+            elif rd[0] == "revert":
+                n = rd[1]
+                if past_sources[n]:
+                    cur = entry_bytes(n)
+                    if cur:
+                        older_entries[n] = cur
+                    prev = past_sources[n].pop()
+                    past_sources[n].append(store[n])
+                    store[n] = prev
+                    steps_dec.append(["revert", n])
             elif rd[0] == "modify":
                 n = rd[1]
                 cur = entry_bytes(n)
